@@ -71,6 +71,8 @@ class Runner:
     def __init__(self):
         self.base = list(lk.sol_list)          # the default solver(s)
         self.sols = [lk.sol_list[-1]] + [lk.Solver(name=f"S{k}") for k in range(1, NSOL + 1)]
+        for sol in self.sols:
+            sol.default_params["CM"] = 0.5       # a parameter name every solver owns (helpers must touch only one)
         self.log = []
         self.count = 0
 
@@ -91,6 +93,11 @@ class Runner:
             d = dict(lk.sol_list[-1].default_params)
             d[f"d{tag}"] = 2.0
             lk.set_default_params(d)
+        elif name == "add_param" and tag % 2 == 0:
+            # re-define the parameter every solver owns: only the active solver's entry may change
+            if "CM" not in lk.sol_list[-1].default_params:
+                lk.update_default_params({"CM": 0.5})
+            lk.add_param("CM", lambda **kw: 0.5, default={f"CW{tag}": 0.0})
         elif name == "add_param":
             lk.PhaseShifter(param_name=f"PS{tag}").pin_mapping({Pin("a0"): Pin(f"pa{tag}"), Pin("b0"): Pin(f"pb{tag}")}).put()
             lk.add_param(f"PS{tag}", lambda **kw: 0.5, default={f"PW{tag}": 0.0})
